@@ -43,6 +43,10 @@ func c18(mode, in, out string) error {
 		return runCases(in, out, c18Record)
 	case "selftest":
 		return runCasesSerial(in, out, c18SelfTest)
+	case "history":
+		return runCases(in, out, c18HistoryCase)
+	case "histrecord":
+		return runCases(in, out, c18HistRecord)
 	}
 	return fmt.Errorf("c18: unknown mode %q", mode)
 }
